@@ -146,7 +146,8 @@ int __wrap_select(int nfds, fd_set *r, fd_set *w, fd_set *e, struct timeval *tv)
 			{
 				std::map<int, SimPipe*>::iterator it = g_fdt->rd.find(fd);
 				bool ok = (it != g_fdt->rd.end()) && (!it->second->vis.empty() ||
-					(it->second->wclosed && it->second->flight.empty()) || !it->second->read_script.empty());
+					(it->second->wclosed && it->second->flight.empty()) ||
+					(!it->second->read_script.empty() && it->second->read_script.front() < 0)); // a scripted error is reported by the next read
 				if (ok) cnt++; else if (apply) FD_CLR(fd, rr);
 			}
 			if (ww && FD_ISSET(fd, ww))
